@@ -53,6 +53,11 @@ func c19(c *Ctx) {
 	if rounds > 0 {
 		c19RunHammer(c, os.Args[0], "c19-hammer", "plain", rounds, 240*time.Second)
 		c19RunHammer(c, os.Args[0], "c19-maprace", "maprace", 3, 120*time.Second)
+		cr := 6
+		if c.Tier == "thorough" {
+			cr = 20
+		}
+		c19RunHammer(c, os.Args[0], "c19-confirmrace", "confirmrace", cr, 240*time.Second)
 	}
 	if c.Tier == "thorough" && os.Getenv("VERIF_C19_NORACE") == "" {
 		c19Race(c)
@@ -158,9 +163,9 @@ func c19Facts(c *Ctx) {
 		c.Fail("c19/scan-failed", "lock-discipline scan failed: "+err.Error(), nil)
 		return
 	}
-	for _, v := range c19Vars {
-		c.Op("guard "+v.Name+" "+guards[v.Name], "ok")
-		c.Count("guard:" + v.Name + ":" + guards[v.Name])
+	for _, name := range c19AllVarNames() {
+		c.Op("guard "+name+" "+guards[name], "ok")
+		c.Count("guard:" + name + ":" + guards[name])
 	}
 	bad := map[string][]string{} // "<var>/<func>" -> rows
 	var order []string
@@ -184,12 +189,7 @@ func c19Facts(c *Ctx) {
 	for _, k := range order {
 		rs := bad[k]
 		v := k[:strings.Index(k, "/")]
-		lock := ""
-		for i, x := range c19Vars {
-			if x.Name == v && c19LastScan != nil {
-				lock = c19LastScan.nominal[i]
-			}
-		}
+		lock := c19NominalLock(v)
 		c.Fail("c19/unlocked-access/"+k, "shared variable "+v+" is accessed in "+k[len(v)+1:]+" without its lock ("+lock+") on "+fmt.Sprint(len(rs))+" entry path(s); fact-table rows with lockHeld=false: "+strings.Join(rs, " ; "), map[string]interface{}{"rows": rs})
 	}
 }
@@ -208,6 +208,7 @@ var c19LeanVar = map[string]string{
 	"FileQueue.Index":               "index",
 	"Manager.termList":              "termList",
 	"Manager.evilDeputies":          "evilDeputies",
+	"Beansdb.blockRecord":           "blockRecord",
 }
 
 func c19Kind(entry string) string {
@@ -251,11 +252,16 @@ func c19GenFacts(c *Ctx) {
   on a tree without the dedicated mutex); UnConfirmBlocks, LastConfirm -> ChainDatabase.RW; FileQueue.Index ->
   FileQueue.IndexRW; termList -> Manager.lock; evilDeputies -> Manager.edLock; ForkManager.head -> accessed through
   sync/atomic.Value Load/Store only.  held = the access holds the nominal lock or the variable's guard.
+  Beansdb.blockRecord = the stored record of a STABLE block, read-modify-written by ChainDatabase.setConfirm
+  (getBlock4DB; append confirms; setBlock2DB): the r row is held when ChainDatabase.RW is held at the read, the w
+  row when RW is held at the write back AND it is the SAME critical section as the read (same Lock() statement, or
+  both inherited from the caller and never released in between): a release between read and write = lost update.
 -/
 namespace LemoModel.LockFacts
 
 inductive Var where
   | sigCache | lastSig | head | unConfirmBlocks | lastConfirm | offset | index | termList | evilDeputies
+  | blockRecord
   deriving DecidableEq, Repr
 
 def Var.ofString? : String → Option Var
@@ -268,6 +274,7 @@ def Var.ofString? : String → Option Var
   | "FileQueue.Index" => some .index
   | "Manager.termList" => some .termList
   | "Manager.evilDeputies" => some .evilDeputies
+  | "Beansdb.blockRecord" => some .blockRecord
   | _ => none
 
 /-- the kind of entry point a row is about (the prefix of the entry name) -/
@@ -307,12 +314,13 @@ def table : List Row := [
     atomic.Value Load/Store; "none": no such lock) -/
 def guards : List (Var × String) := [
 `)
-	for i, v := range c19Vars {
+	names := c19AllVarNames()
+	for i, name := range names {
 		sep := ","
-		if i == len(c19Vars)-1 {
+		if i == len(names)-1 {
 			sep = ""
 		}
-		fmt.Fprintf(&b, "  (.%s, %q)%s\n", c19LeanVar[v.Name], guards[v.Name], sep)
+		fmt.Fprintf(&b, "  (.%s, %q)%s\n", c19LeanVar[name], guards[name], sep)
 	}
 	b.WriteString(`]
 
